@@ -59,7 +59,8 @@ SHA_EXT = {
     # src/hashing/sha2/impl256/reference.rs, tied by Props/C01/KernelTieSha256.lean (`use super::reference::{e0, e1}`)
     "e0": Ext("Impl256.e0 {0}", ["u32"], "u32"),
     "e1": Ext("Impl256.e1 {0}", ["u32"], "u32"),
-    "reference::digest_block": Ext("Impl256.digest_block {0} {1}", [W8T, ("list", "u8", None)], "unit", mode="option", outs=[0]),
+    # the GENERATED multi-block driver (tools/kernels/sha2_drivers.py -> Extracted/GlueSha2Drv.lean, tied by Props/C01/GlueTieSha2Drv.lean)
+    "reference::digest_block": Ext("GlueSha2Drv.Impl256.reference_digest_block_src {0} {1}", [W8T, ("list", "u8", None)], "unit", mode="option", outs=[0]),
 }
 P_SSE = Program(externs=SHA_EXT, sarr=W8)
 P_AVX = Program(externs={**SHA_EXT,
@@ -121,6 +122,7 @@ import CxVerif.Util.GlueRt
 import CxVerif.Util.Intrinsics
 import CxVerif.Impl.Sha2
 import CxVerif.Impl.Blake2
+import CxVerif.Extracted.GlueSha2Drv
 /-!
   Extracted.GlueSimd — GENERATED by tools/ktx_glue_simd.py (kernel specs tools/kernels/glue_simd.py): the vectorised code paths of
   src/chacha/sse2.rs, src/hashing/sha2/impl256/{sse41,avx}.rs, src/hashing/blake2/{avx,avx2}.rs, translated statement by statement from the CURRENT Rust source into the intrinsic
